@@ -120,7 +120,7 @@ theorem update_append (hb : 0 < a.block) (s : HState a) (m1 m2 : Bytes) :
   simp [Nat.add_assoc]
 
 /-- updating with nothing changes nothing that matters (buffer re-absorbed: it is shorter than a block) -/
-theorem update_nil (hb : 0 < a.block) (s : HState a) (hbuf : s.buf.length < a.block) : update a s [] = s := by
+theorem update_nil (_hb : 0 < a.block) (s : HState a) (hbuf : s.buf.length < a.block) : update a s [] = s := by
   unfold update
   simp only [List.append_nil]
   have e1 : absorb a s.h s.buf (s.buf.length / a.block + 1) = absorbFull a s.h s.buf := rfl
@@ -175,6 +175,165 @@ theorem hmac_stream (hb : 0 < a.block) (key : Bytes) (chunks : List Bytes) :
   congr 2
   have := stream_eq_oneshot a hb ((xorPad (if key.length > a.block then Crypto.hash a key else key) a.block 0x36) :: chunks)
   simpa [List.foldl] using this
+
+/-! ### CFB mode: decryption inverts encryption, for every block function -/
+
+def pad16 (c : Bytes) : Bytes := c ++ List.replicate (16 - c.length) 0
+
+def encChunks (E : Bytes → Bytes) : Bytes → List Bytes → List Bytes
+  | _, [] => []
+  | iv, b :: bs => xorB b (E iv) :: encChunks E (pad16 (xorB b (E iv))) bs
+def decChunks (E : Bytes → Bytes) : Bytes → List Bytes → List Bytes
+  | _, [] => []
+  | iv, c :: cs => xorB c (E iv) :: decChunks E (pad16 c) cs
+
+theorem enc_fold (E : Bytes → Bytes) : ∀ (cs : List Bytes) (acc iv : Bytes),
+    (cs.foldl (fun (st : Bytes × Bytes) blk => (st.1 ++ xorB blk (E st.2), pad16 (xorB blk (E st.2)))) (acc, iv)).1 = acc ++ (encChunks E iv cs).flatten := by
+  intro cs
+  induction cs with
+  | nil => intro acc iv; simp [encChunks]
+  | cons b bs ih => intro acc iv; simp only [List.foldl, encChunks, List.flatten_cons]; rw [ih]; simp [List.append_assoc]
+
+theorem dec_fold (E : Bytes → Bytes) : ∀ (cs : List Bytes) (acc iv : Bytes),
+    (cs.foldl (fun (st : Bytes × Bytes) blk => (st.1 ++ xorB blk (E st.2), pad16 blk)) (acc, iv)).1 = acc ++ (decChunks E iv cs).flatten := by
+  intro cs
+  induction cs with
+  | nil => intro acc iv; simp [decChunks]
+  | cons b bs ih => intro acc iv; simp only [List.foldl, decChunks, List.flatten_cons]; rw [ih]; simp [List.append_assoc]
+
+theorem xor_twice (x m : UInt8) : (x ^^^ m) ^^^ m = x := by
+  apply UInt8.eq_of_toBitVec_eq
+  simp only [UInt8.toBitVec_xor]
+  ext k hk
+  simp only [BitVec.getElem_xor]
+  cases x.toBitVec[k] <;> cases m.toBitVec[k] <;> rfl
+
+theorem xorB_involution : ∀ (d m : Bytes), d.length ≤ m.length → xorB (xorB d m) m = d := by
+  intro d
+  induction d with
+  | nil => intro m _; simp [xorB]
+  | cons x xs ih =>
+    intro m hl
+    cases m with
+    | nil => simp at hl
+    | cons y ys =>
+      simp only [xorB, List.zipWith_cons_cons, List.cons.injEq]
+      exact ⟨xor_twice x y, ih ys (by simpa using hl)⟩
+
+theorem dec_enc_chunks (E : Bytes → Bytes) (hE : ∀ x, (E x).length = 16) : ∀ (bs : List Bytes) (iv : Bytes),
+    (∀ b ∈ bs, b.length ≤ 16) → decChunks E iv (encChunks E iv bs) = bs := by
+  intro bs
+  induction bs with
+  | nil => intro iv _; rfl
+  | cons b rest ih =>
+    intro iv hb
+    simp only [encChunks, decChunks, List.cons.injEq]
+    exact ⟨xorB_involution b (E iv) (by rw [hE]; exact hb b (by simp)), ih _ (fun x hx => hb x (by simp [hx]))⟩
+
+theorem xorB_length (a b : Bytes) : (xorB a b).length = min a.length b.length := by simp [xorB, List.length_zipWith]
+
+theorem chunks16_le : ∀ (fuel : Nat) (bs : Bytes), ∀ b ∈ chunks16 bs fuel, b.length ≤ 16 := by
+  intro fuel
+  induction fuel with
+  | zero => intro bs b hb; simp [chunks16] at hb
+  | succ n ih =>
+    intro bs b hb
+    unfold chunks16 at hb
+    by_cases he : bs.isEmpty = true
+    · simp [he] at hb
+    · simp only [he, Bool.false_eq_true, if_false, List.mem_cons] at hb
+      rcases hb with h | h
+      · subst h; simp [List.length_take]; omega
+      · exact ih _ b h
+
+theorem chunks16_flatten : ∀ (fuel : Nat) (bs : Bytes), bs.length ≤ fuel * 16 → (chunks16 bs fuel).flatten = bs := by
+  intro fuel
+  induction fuel with
+  | zero => intro bs h; have : bs = [] := List.eq_nil_of_length_eq_zero (by omega); subst this; rfl
+  | succ n ih =>
+    intro bs h
+    unfold chunks16
+    by_cases he : bs.isEmpty = true
+    · have : bs = [] := by simpa using he
+      subst this; simp
+    · simp only [he, Bool.false_eq_true, if_false, List.flatten_cons]
+      rw [ih (bs.drop 16) (by rw [List.length_drop]; omega)]
+      exact List.take_append_drop 16 bs
+
+/-- re-chunking the ciphertext gives the ciphertext chunks -/
+theorem rechunk (E : Bytes → Bytes) (hE : ∀ x, (E x).length = 16) : ∀ (fuel : Nat) (pt iv : Bytes),
+    chunks16 ((encChunks E iv (chunks16 pt fuel)).flatten) fuel = encChunks E iv (chunks16 pt fuel) := by
+  intro fuel
+  induction fuel with
+  | zero => intro pt iv; simp [chunks16, encChunks]
+  | succ n ih =>
+    intro pt iv
+    by_cases he : pt.isEmpty = true
+    · have : chunks16 pt (n + 1) = [] := by unfold chunks16; simp [he]
+      rw [this]; simp [encChunks, chunks16]
+    · have hne : pt ≠ [] := by simpa using he
+      have hc : chunks16 pt (n + 1) = pt.take 16 :: chunks16 (pt.drop 16) n := by
+        conv => lhs; unfold chunks16
+        simp [he]
+      rw [hc]
+      simp only [encChunks, List.flatten_cons]
+      generalize hc0 : xorB (pt.take 16) (E iv) = c0
+      have hl0 : c0.length = min pt.length 16 := by rw [← hc0, xorB_length, hE, List.length_take]; omega
+      have hpos : 0 < pt.length := List.length_pos_iff.mpr hne
+      have hc0ne : (c0 ++ (encChunks E (pad16 c0) (chunks16 (pt.drop 16) n)).flatten).isEmpty = false := by
+        have : c0 ≠ [] := by intro h; rw [h] at hl0; simp at hl0; omega
+        cases c0 with
+        | nil => exact absurd rfl this
+        | cons x xs => rfl
+      conv => lhs; unfold chunks16
+      simp only [hc0ne, Bool.false_eq_true, if_false]
+      by_cases hfull : 16 ≤ pt.length
+      · have h16 : c0.length = 16 := by omega
+        rw [List.take_append_of_le_length (by omega), List.drop_append_of_le_length (by omega)]
+        rw [List.take_of_length_le (by omega), List.drop_of_length_le (by omega), List.nil_append]
+        rw [ih]
+      · have hshort : pt.length < 16 := by omega
+        have hd : pt.drop 16 = [] := List.drop_of_length_le (by omega)
+        have hrest : chunks16 (pt.drop 16) n = [] := by
+          rw [hd]; cases n with
+          | zero => rfl
+          | succ k => unfold chunks16; rfl
+        rw [hrest]
+        simp only [encChunks, List.flatten_nil, List.append_nil]
+        rw [List.take_of_length_le (by omega), List.drop_of_length_le (by omega)]
+        cases n with
+        | zero => rfl
+        | succ k => unfold chunks16; rfl
+
+theorem encChunks_flatten_length (E : Bytes → Bytes) (hE : ∀ x, (E x).length = 16) : ∀ (cs : List Bytes) (iv : Bytes),
+    (∀ b ∈ cs, b.length ≤ 16) → (encChunks E iv cs).flatten.length = cs.flatten.length := by
+  intro cs
+  induction cs with
+  | nil => intro iv _; rfl
+  | cons b rest ih =>
+    intro iv hb
+    simp only [encChunks, List.flatten_cons, List.length_append]
+    rw [ih _ (fun x hx => hb x (by simp [hx])), xorB_length, hE]
+    have := hb b (by simp); omega
+
+/-- **CFB decryption inverts CFB encryption for every block function with 16-byte output, every IV and every length
+    (including a partial last block)** -/
+theorem cfb_roundtrip (E : Bytes → Bytes) (hE : ∀ x, (E x).length = 16) (iv pt : Bytes) :
+    (cfbDecrypt E iv (cfbEncrypt E iv pt).1).1 = pt := by
+  have henc : (cfbEncrypt E iv pt).1 = (encChunks E iv (chunks16 pt (pt.length / 16 + 1))).flatten := by
+    unfold cfbEncrypt
+    have := enc_fold E (chunks16 pt (pt.length / 16 + 1)) [] iv
+    simpa [pad16] using this
+  have hfuel : pt.length ≤ (pt.length / 16 + 1) * 16 := by omega
+  have hlen : (cfbEncrypt E iv pt).1.length = pt.length := by
+    rw [henc, encChunks_flatten_length E hE _ iv (chunks16_le _ pt), chunks16_flatten _ pt hfuel]
+  unfold cfbDecrypt
+  rw [hlen, henc, rechunk E hE]
+  have := dec_fold E (encChunks E iv (chunks16 pt (pt.length / 16 + 1))) [] iv
+  have h2 : (List.foldl (fun (st : Bytes × Bytes) blk => (st.1 ++ xorB blk (E st.2), pad16 blk)) ([], iv)
+      (encChunks E iv (chunks16 pt (pt.length / 16 + 1)))).1 = pt := by
+    rw [this, dec_enc_chunks E hE _ iv (chunks16_le _ pt), chunks16_flatten _ pt hfuel]; simp
+  simpa [pad16] using h2
 
 /-! ### Known-answer tests (finite: these are tests, not the unbounded claim) -/
 -- The FIPS 180-4 "abc" vectors, the FIPS 197 appendix C vectors and a P-256 sanity check are evaluated by
